@@ -432,6 +432,12 @@ def _callers_establish(db, f, j, rest, depth, trail):
     for cb, cbi, t in callers:
         if len(t["args"]) < j:
             return 0
+        # the caller is studied with its private helpers inlined (a classifier the dispatcher consults, a stage): block indices and locals of
+        # the caller itself are unchanged by inlining
+        try:
+            cb = inline.inlined(db, cb)
+        except Exception:
+            pass
         k0 = optstate.place_key(cb, t["args"][j - 1])
         if k0 is None:
             return 0
